@@ -29,17 +29,48 @@ fn mk_c05() -> Vec<Box<dyn Monitor>> {
     vec![Box::new(mon::c05::C05::new())]
 }
 
+fn mk_c06() -> Vec<Box<dyn Monitor>> {
+    vec![Box::new(mon::swaps::C06)]
+}
+fn mk_c03() -> Vec<Box<dyn Monitor>> {
+    vec![Box::new(mon::swaps::C03)]
+}
+
+const HIST: &str = "seeded multi-actor histories (LPs, traders, keeper, fee authority, protocol-fee collector) on 1-2 pools with swarm-randomised knobs (tick spacing, start price, liquidity and swap magnitudes, fee rates, fixed/dynamic/mixed arrays, rent) under delay/reorder/drop/duplicate/burst/actor-crash/actor-stall/CPI-failure/state-fast-forward faults; ";
+
 fn specs() -> Vec<CheckSpec> {
-    vec![CheckSpec {
+    vec![
+    CheckSpec {
+        id: "C03",
+        profile: Profile::Core,
+        mk: mk_c03,
+        level: "exploration",
+        rule: "HIST every swap / swap_v2 that lands (planned on a view that went stale while in flight) is checked from the trader's balance deltas and the pool account; one third are replayed on forks with threshold = realised, realised-1, realised+1; a case is one (instruction, direction, mode, explicit limit, stopped at limit, fully filled, threshold class, tick spacing) tuple of a successful swap",
+        quick_runs: 400,
+        thorough_secs: 600,
+        assumptions: COMMON_ASSUMPTIONS,
+    },
+    CheckSpec {
+        id: "C06",
+        profile: Profile::Core,
+        mk: mk_c06,
+        level: "exploration",
+        rule: "HIST every landed swap's per-step trace (hook H1) must chain from the pool's pre-state to its post-state and is re-computed step by step with big integers (curve amounts, fee, protocol share, LP growth increment), then reconciled with account deltas, vault balances and the Traded event; protocol-fee collections must pay exactly the owed amounts and zero them; a case is one (instruction, direction, mode, #steps, #crossed ticks, zero-liquidity step, ended at limit, explicit limit, spacing, fee class, protocol fee on) tuple",
+        quick_runs: 400,
+        thorough_secs: 600,
+        assumptions: COMMON_ASSUMPTIONS,
+    },
+    CheckSpec {
         id: "C05",
         profile: Profile::Core,
         mk: mk_c05,
         level: "exploration",
-        rule: "seeded multi-actor histories (LPs, traders, keeper, fee authority, collector) with delay/reorder/drop/duplicate/burst/crash/CPI-failure faults; after every landed transaction the pool, position and tick-array bytes are decoded independently and compared; a case is one (instruction kind, #positions, #in-range, #bounded ticks, zero-liquidity, shifted-state, tick spacing, #dynamic arrays) tuple with at least one position in the pool",
+        rule: "HIST after every landed transaction the pool, position and tick-array bytes are decoded independently and compared; a case is one (instruction kind, #positions, #in-range, #bounded ticks, zero-liquidity, shifted-state, tick spacing, #dynamic arrays) tuple with at least one position in the pool",
         quick_runs: 400,
         thorough_secs: 600,
         assumptions: COMMON_ASSUMPTIONS,
-    }]
+    },
+    ]
 }
 
 fn usage() -> ! {
